@@ -148,6 +148,13 @@ def main(seed, ncases, driver, out):
                 cmp(tag + ".rmatvec", Q.rmatvec(Xf[:, 0]), [[r[0]] for r in mmul(madj(D), X)])
                 cmp(tag + " @ identity", Q @ np.eye(n), D)
                 if kind.startswith("biorthogonal"): cmp(tag + " @ " + tag + " @ matrix (idempotent)", Q @ (Q @ Xf), mmul(D, X))
+                # the projector composed with itself and with its own transpose / adjoint / conjugate, as operators
+                w2, Q2 = pool[rnd.randrange(len(pool))]; D2 = model_dense(w2); tag2 = "P" + "".join("." + o for o in w2)
+                for name, comp, Dc in ((f"({tag} @ {tag})", Q @ Q, mmul(D, D)), (f"({tag}.dot({tag}))", Q.dot(Q), mmul(D, D)), (f"({tag} @ {tag2})", Q @ Q2, mmul(D, D2)),
+                                       (f"({tag} @ {tag} @ {tag2})", Q @ Q @ Q2, mmul(mmul(D, D), D2))):
+                    cmp(name + " @ matrix", comp @ Xf, mmul(Dc, X))
+                    cmp("matrix @ " + name, Yf @ comp, mmul(Yr, Dc))
+                    cmp(name + ".H @ matrix", comp.H @ Xf, mmul(madj(Dc), X))
                 if rnd.random() < 0.6:
                     Aop = sparse.csr_array(Af) if rnd.random() < 0.5 else Af
                     C = Q @ aslinearoperator(Aop) @ Q; DC = mmul(mmul(D, A), D)
